@@ -867,8 +867,14 @@ func c08EncodingTable(c *Ctx) {
 	// table form: `ctor, ok := encoders[to]; if !ok { return error }; enc := ctor(out)` with a
 	// package-level map literal from encoding name to constructor
 	tableForm := false
-	if len(got) == 0 {
-		eachInstr(fn, func(i ssa.Instruction) {
+	for _, tf := range region(fn) {
+		if len(got) != 0 && !tableForm {
+			break
+		}
+		if tf != fn && !onlyCalledFrom(c, tf, fn) {
+			continue
+		}
+		eachInstr(tf, func(i ssa.Instruction) {
 			lk, ok := i.(*ssa.Lookup)
 			if !ok || !lk.CommaOk || !paramReaches(c, lk.Index, toParam) {
 				return
